@@ -3,6 +3,7 @@ import CyVerif.Lemmas.C19Cmp
 import CyVerif.Lemmas.C19In
 import CyVerif.Lemmas.C19Str
 import CyVerif.Lemmas.C19Bytes
+import CyVerif.Lemmas.C19Int
 /-!
 # C19 — comparisons and membership tests match CPython
 
@@ -598,5 +599,24 @@ example : (UStr.mk 2 [0x20AC]).canon := by simp [UStr.canon, kindOf]
 example : equalsUCS4 ⟨2, [0x20AC]⟩ 0x20AC true = true := by decide
 example : bytesOrd true .lt [97, 0, 98] [97, 0, 99] = true := by decide
 example : ¬(([97] : List Nat) = [] ∧ ([] : List Nat) = []) := by simp
+
+/-! ## Part 5: `__Pyx_PyObject_CompareIntInt` (object / `int`-typed operands of `== != < <= > >=`) -/
+
+/-- **Theorem**: for every base `B >= 2` (CPython: 2^30), all six operators and all canonical digit strings of ANY
+length (sign/size shortcut, 1- and 2-digit fast paths, count-down digit loop), the helper answers `x op y`. -/
+theorem int_compare (B : Nat) (hB : 2 ≤ B) (op : CmpOp) (a b : PyInt) (ha : a.WF B) (hb : b.WF B) :
+    compareIntInt B op a b = op.holds (a.val B) (b.val B) := compareIntInt_spec B hB op a b ha hb
+
+/-- the digit loop alone: sign of the difference of the magnitudes, every digit position counts -/
+theorem int_digit_loop (B : Nat) (xs ys : List Nat) (hl : xs.length = ys.length)
+    (hx : ∀ d ∈ xs, d < B) (hy : ∀ d ∈ ys, d < B) :
+    (digitLoop xs ys < 0 ↔ magBE B xs < magBE B ys) ∧ (0 < digitLoop xs ys ↔ magBE B ys < magBE B xs) :=
+  digitLoop_sign B xs ys hl hx hy
+
+/-- non-vacuity: 2^60 vs 2^60 + 1 (three digits, they differ in the least significant one) -/
+example : compareIntInt (2 ^ 30) .lt ⟨false, [1, 0, 0]⟩ ⟨false, [1, 0, 1]⟩ = true := by decide
+example : compareIntInt (2 ^ 30) .eq ⟨false, [1, 0, 0]⟩ ⟨false, [1, 0, 1]⟩ = false := by decide
+example : (PyInt.mk false [1, 0, 1]).WF (2 ^ 30) := by
+  refine ⟨?_, ?_, ?_⟩ <;> simp
 
 end CyVerif.C19
